@@ -195,7 +195,7 @@ class Tracker:
     no creation over existing contents, ...).  It does NOT try to keep the
     transform conflict-free: parents may be files, deleted, own children."""
 
-    def __init__(self, base_snapshot, extras=()):
+    def __init__(self, base_snapshot, extras=(), missing=()):
         # base_snapshot: {path: kind} of versioned entries; extras: {path:
         # kind} of unversioned files on disk
         self.s = {}
@@ -209,6 +209,9 @@ class Tracker:
                                     new=None, unversioned=False, newid=False,
                                     tree=True, parent=self._pref(p),
                                     name=p.rsplit("/", 1)[-1])
+        for p in missing:
+            # versioned, but the file is gone from disk
+            self.s[("t", p)]["kind"] = None
         self.n = 0
         self.used_ids = set()
 
@@ -316,3 +319,32 @@ class Tracker:
             if op[2] is not None:
                 e["parent"] = tuple(op[2])
         return r
+
+
+def name_clash_with_contentless(tt):
+    """Pairs of trans ids KNOWN to the transform that end up with the same
+    name in the same directory where one side is versioned but has no contents
+    (file missing from disk, or contents deleted without unversioning) and the
+    other side exists.  -> list of (contentless id, other id, name)"""
+    from breezy.transform import NoFinalPath
+    known = set(tt._tree_id_paths) | set(tt._new_name) | set(tt._new_parent) \
+        | set(tt._new_contents)
+    known.discard(tt.root)
+    groups = {}
+    for t in sorted(known):
+        try:
+            key = (tt.final_parent(t), tt.final_name(t))
+        except (NoFinalPath, KeyError):
+            continue
+        groups.setdefault(key, []).append(t)
+    out = []
+    for (parent, name), ts in groups.items():
+        if len(ts) < 2:
+            continue
+        ghosts = [t for t in ts if tt.final_kind(t) is None and
+                  tt.final_is_versioned(t)]
+        others = [t for t in ts if tt.final_kind(t) is not None]
+        for g in ghosts:
+            for o in others:
+                out.append((g, o, name))
+    return out
